@@ -592,6 +592,7 @@ META["C08"] = dict(
     rule="a case is (multiset of argument type skeletons) for generated parsers, (set of class features) for the class parser, "
     "(path spelling, entry method, validity) for symlinked configs; distinct by hash; each runs 10-20 monitored calls.",
     gates={
+        "st.list_valued_and_schema_arguments": g(40, 400),
         "st.parser_with_default_config_file": g(30, 300), "mon.lazy_default_instance_used": g(30, 300),
         "mon.calls_snapshotted": g(3000, 40000), "mon.accepted_configs": g(100, 1500), "mon.instantiate_pairs": g(100, 1500),
         "mon.instances_checked": g(500, 8000), "mon.merge_config_class_change": g(100, 1500), "mon.symlinked_config_parses": g(80, 1000),
